@@ -86,9 +86,9 @@ reg(
     "C10",
     title="failing sink: error, no further writes, clean prefix",
     level="fault_enumeration",
-    technique="runtime monitoring with fault injection: recording/failing io::Write sink, every write index of the fault-free run failed in turn (hard failure and short-write-then-failure)",
+    technique="runtime monitoring with fault injection: recording/failing io::Write sink, every write index of the fault-free run faulted in turn (hard failure, short-write-then-failure, and a legal short write by a sink that never fails)",
     design_ref="DESIGN.md §5 C10",
-    rule=("a case = (generated template with partials and data, fault mode in {fail, short-then-fail}, k) for every k in 1..W where W is the "
+    rule=("a case = (generated template with partials and data, fault mode in {fail, short-then-fail, short-but-never-fails}, k) for every k in 1..W where W is the "
           "number of write calls of the fault-free run (W <= 400 exhaustively, stride-sampled above). Oracle: render_to returns Err, the sink "
           "sees zero calls after the failing one, accepted bytes are a prefix of the fault-free bytes; with an infallible sink the streamed bytes "
           "equal render()'s string. distinct = distinct (scenario, mode, k); non-trivial = the fault point was injected into a run that writes (W >= 1)."),
